@@ -215,6 +215,10 @@ type Raft struct {
 	// The timestamp representing the time of the last contact by the leader.
 	lastContact time.Time
 
+	// Indicates that this node has won a prevote and may start an election
+	// for the next term.
+	prevoteWon bool
+
 	// Indicates that this node was stopped, which closes its log. Its
 	// persisted state has to be restored before it can run again.
 	stopped bool
@@ -1263,10 +1267,14 @@ func (r *Raft) election() {
 		time.Since(r.lastContact) < r.options.electionTimeout {
 		return
 	}
-	if r.state == Follower {
+	// A candidate whose election was not decided holds a new prevote before it
+	// increments its term again. Otherwise a node that is cut off from the cluster
+	// would keep increasing its term and disrupt the cluster when it rejoins.
+	if r.state == Follower || (r.state == Candidate && !r.prevoteWon) {
 		r.becomePreCandidate()
 	}
 	if r.state == Candidate {
+		r.prevoteWon = false
 		r.becomeCandidate()
 	}
 
@@ -1347,6 +1355,7 @@ func (r *Raft) sendRequestVote(id string, address string, votes *int, prevote bo
 		// Signal to the election loop to start an election so that the real election
 		// does not have to wait until the election ticker goes off again.
 		r.state = Candidate
+		r.prevoteWon = true
 		r.electionCond.Broadcast()
 	}
 
